@@ -183,6 +183,10 @@ token!(Big, { pad: [u64; 32] = [0xA5A5A5A5A5A5A5A5; 32] });
 token!(Big2, { pad: [u64; 32] = [0x5A5A5A5A5A5A5A5A; 32] });
 token!(Al64, #[repr(align(64))] {});
 token!(Al64b, #[repr(align(64))] {});
+token!(Huge2K, { pad: [u64; 255] = [0x2048204820482048; 255] });
+token!(Huge2Kb, { pad: [u64; 255] = [0x8402840284028402; 255] });
+token!(Al256, #[repr(align(256))] {});
+token!(Al256b, #[repr(align(256))] {});
 token!(TokBox, { b: Box<u64> = Box::new(0xB0B0) });
 token!(TokBox2, { b: Box<u64> = Box::new(0xB1B1) });
 
